@@ -74,10 +74,14 @@ let verdict_str (v : verdict) : string = match v with
   | VUpstreamSet -> "FAIL:c10-upstream-set" | VUpstreamWire -> "FAIL:c10-upstream-wire"
   | VUpstreamOpt -> "FAIL:c12-upstream-opt" | VSize -> "FAIL:c09-size"
 
-let up_outcome (s : string) : uout * bool =
+(* [failed] (the oracle's notion of upstream failure) includes a reply that does not answer the question asked *)
+let up_outcome (query : msg) (s : string) : uout * bool =
   if String.length s > 6 && String.sub s 0 6 = "reply:" then
     (match unpack_msg (bytes_of_hex (String.sub s 6 (String.length s - 6))) with
-     | Ok m -> (UReply m, false) | _ -> (UFail, true))
+     | Ok m ->
+       let mismatch = (match query.m_qs with q :: _ -> not (reply_question_ok (lower_q q) m) | [] -> false) in
+       (UReply m, mismatch)
+     | _ -> (UFail, true))
   else (UFail, true)
 
 let strip_frame (l : listener) (b : n list) : n list =
@@ -101,7 +105,7 @@ let run_handle parts =
   let client = client_of (List.hd (String.split_on_char '-' l)) (fld f "client") in
   match unpack_msg (bytes_of_hex (fld f "q")) with
   | Ok m ->
-    let (out, failed) = up_outcome (fld f "up") in
+    let (out, failed) = up_outcome m (fld f "up") in
     let (resp, eff) = handle (matches_of c) c.rules c.ecs (fun _ _ -> out) m client in
     let bytes = (match respond lk m resp with b :: _ -> strip_frame lk b | [] -> []) in
     let obs = List.filter_map (fun e -> match e with
@@ -122,7 +126,7 @@ let run_handlespec parts =
   let client = client_of (List.hd (String.split_on_char '-' l)) (fld f "client") in
   match unpack_msg (bytes_of_hex (fld f "q")) with
   | Ok m ->
-    let (_, failed) = up_outcome (fld f "up") in
+    let (_, failed) = up_outcome m (fld f "up") in
     let bytes = bytes_of_hex (fld f "resp") in
     let obs = parse_obs (fld f "upq") in
     (* retries of a failing exchange and the TCP repeat after a truncated UDP reply re-send the same wire *)
